@@ -1,7 +1,8 @@
 (* C12 — merging Count-Min sketches equals sketching the combined stream.
    Statements only; every proof is `exact <lemma>` into Proofs/. *)
 From GX.Model Require Import Base CMS.
-From GX.Proofs Require Import ListLemmas CMSProofs CMSApi.
+From GX.Model Require Import Redis RedisCMS.
+From GX.Proofs Require Import ListLemmas CMSProofs CMSApi RedisCMSRefine.
 
 Section Mem.
 Variable cpos : N -> N -> bytes -> list N.
@@ -52,8 +53,26 @@ Example C12_premises_hold : exists sa sb, cms_new 2 3 = Ok sa /\ cms_new 2 3 = O
   total ([([1], 5)] ++ [([2], 7)]) < two64.
 Proof. do 2 eexists; repeat split; try reflexivity. Qed.
 
+(* Redis-backed variant, through the refinement: if the two handles' row lists represent the
+   matrices ma and mb (different base keys of equal length, counters below bounds whose sum fits
+   2^53), the Lua merge script succeeds and leaves a store in which the receiver represents
+   exactly cms_merge ma mb and the argument is unchanged - so every clause proved above for the
+   in-memory merge (combined stream, commutativity, later updates) carries over to the Redis
+   variant for counters below 2^53. *)
+Theorem C12_redis_merge_refines : forall (cpos : N -> N -> bytes -> list N) rows cols,
+  (forall x, length (cpos rows cols x) = N.to_nat rows) ->
+  (forall x p, In p (cpos rows cols x) -> p < cols) ->
+  forall s a b ma mb Ba Bb, 0 < cols ->
+  refines rows cols s a ma -> refines rows cols s b mb ->
+  length (rc_key a) = length (rc_key b) -> rc_key a <> rc_key b ->
+  cells_below rows cols ma Ba -> cells_below rows cols mb Bb -> Ba + Bb <= B53 ->
+  exists s' m, cms_merge ma mb = Ok m /\ rcms_merge s a b = (Ok tt, s') /\
+               refines rows cols s' a m /\ refines rows cols s' b mb.
+Proof. exact merge_refines. Qed.
+
 Print Assumptions C12_mem_merge_is_combined_stream.
 Print Assumptions C12_mem_merge_commutes.
 Print Assumptions C12_mem_merge_three_any_order.
 Print Assumptions C12_mem_merge_then_update.
 Print Assumptions C12_mem_mismatch_rejected.
+Print Assumptions C12_redis_merge_refines.
